@@ -111,7 +111,7 @@ theorem kw_plain {kw : Bytes} {dn : Bool} (h : dn = true → isDnKw .lib kw = tr
     (if dn then 0x3A :: kw else []).all plain = true := by
   cases dn with
   | false => rfl
-  | true => rw [(isDnKw_lib kw).mp (h rfl)]; decide
+  | true => rcases (isDnKw_lib kw).mp (h rfl) with rfl | rfl | rfl | rfl <;> decide
 
 theorem item_plain {f : Filter} {b : Bytes} (h : GItem .lib f b) : b.all plain = true := by
   cases h with
@@ -354,7 +354,7 @@ theorem toks_item {f : Filter} {b : Bytes} (h : GItem .lib f b) : Toks b := by
       (.lit (by decide) (.lit (by decide) (toks_rval hv)))))
     · cases dn with
       | false => exact .nil
-      | true => rw [(isDnKw_lib kw).mp (hk rfl)]; exact toks_noBs (by decide)
+      | true => rcases (isDnKw_lib kw).mp (hk rfl) with rfl | rfl | rfl | rfl <;> exact toks_noBs (by decide)
     · cases rule with
       | none => exact .nil
       | some r => exact .lit (by decide) (toks_noBs (oid_noBs' (ho r rfl)))
@@ -363,7 +363,7 @@ theorem toks_item {f : Filter} {b : Bytes} (h : GItem .lib f b) : Toks b := by
       (.lit (by decide) (.lit (by decide) (toks_rval hv)))))
     cases dn with
     | false => exact .nil
-    | true => rw [(isDnKw_lib kw).mp (hk rfl)]; exact toks_noBs (by decide)
+    | true => rcases (isDnKw_lib kw).mp (hk rfl) with rfl | rfl | rfl | rfl <;> exact toks_noBs (by decide)
 
 theorem toks_G {f : Filter} {s : Bytes} (h : G .lib f s) : Toks s := by
   refine G_ind (P := Toks) (PL := Toks) ?_ ?_ ?_ .nil (fun a b ha hb => ha.append hb) h
@@ -506,7 +506,7 @@ theorem ss_item {f : Filter} {b : Bytes} (h : GItem .lib f b) {r : Bytes} (hr : 
       (cons_sf _ _ (by decide) (cons_sf _ _ (by decide) (rval_starFree hv)))))) r
     · cases dn with
       | false => rfl
-      | true => rw [(isDnKw_lib kw).mp (hk rfl)]; decide
+      | true => rcases (isDnKw_lib kw).mp (hk rfl) with rfl | rfl | rfl | rfl <;> decide
     · cases rule with
       | none => rfl
       | some m => exact cons_sf _ _ (by decide) (oid_starFree (ho m rfl))
@@ -515,7 +515,7 @@ theorem ss_item {f : Filter} {b : Bytes} (h : GItem .lib f b) {r : Bytes} (hr : 
       (cons_sf _ _ (by decide) (cons_sf _ _ (by decide) (rval_starFree hv)))))) r
     cases dn with
     | false => rfl
-    | true => rw [(isDnKw_lib kw).mp (hk rfl)]; decide
+    | true => rcases (isDnKw_lib kw).mp (hk rfl) with rfl | rfl | rfl | rfl <;> decide
 
 theorem ss_G {f : Filter} {s : Bytes} (h : G .lib f s) :
     ∀ ls r, noAdjacentStars ls (s ++ r) = noAdjacentStars false r := by
@@ -609,7 +609,7 @@ theorem item_op_starFree {f : Filter} {a x : Bytes} {c : UInt8} (ha : IsAttrDesc
       have h1 : starFree (if dn then 0x3A :: kw else []) = true := by
         cases dn with
         | false => rfl
-        | true => rw [(isDnKw_lib kw).mp (hk rfl)]; decide
+        | true => rcases (isDnKw_lib kw).mp (hk rfl) with rfl | rfl | rfl | rfl <;> decide
       have h2 : starFree (optStr [0x3A] rule) = true := by
         cases rule with
         | none => rfl
